@@ -3,6 +3,8 @@
  * conversion functions that use them.  Input: one case per line, numbers as C99 hex (or
  * decimal) doubles, complex = two numbers:
  *   lu n <A>                         -> lu piv=<row_index> det= re im
+ *   lua n <A>                        -> lua piv=<row_index> det= re im x= <the n*n working array
+ *                                       after _vnacommon_lu: L below, U on and above the diagonal>
  *   mldivide m n <A: m*m> <B: m*n>   -> mldivide det= re im x= ...
  *   mrdivide m n <B: m*n> <A: n*n>   -> mrdivide det= re im x= ...
  *   minverse n <A>                   -> minverse det= re im x= ...
@@ -14,6 +16,8 @@
  *   add_a <a: 2*2> <b: 2*2>          -> add_a rc=<r> callbacks=<n> category=<c>
  *        (vnacal_new_add_through on a 2x2 T8 calibration with one frequency, `a` and `b`
  *         given: the a/b -> m reduction through the public API)
+ *   add_an n <a: n*n> <b: n*n>       -> add_an rc=<r> callbacks=<n> category=<c>
+ *        (vnacal_new_add_mapped_matrix on an n x n T8 calibration, all-match standard)
  * All values are printed with %a so that the check can read them back exactly.
  */
 #include <complex.h>
@@ -57,6 +61,15 @@ int main(void)
 	    printf("lu piv=");
 	    for (int i = 0; i < n; ++i) printf("%s%d", i ? "," : "", ri[i]);
 	    printf(" det= %a %a\n", creal(d), cimag(d));
+	    free(a); free(ri);
+	} else if (strcmp(op, "lua") == 0) {
+	    int n; if (scanf("%d", &n) != 1) return 2;
+	    cx *a = rmat(n, n);
+	    int *ri = malloc(sizeof(int) * (n + 1));
+	    cx d = _vnacommon_lu(a, ri, n);
+	    printf("lua piv=");
+	    for (int i = 0; i < n; ++i) printf("%s%d", i ? "," : "", ri[i]);
+	    printf(" det= %a %a x=", creal(d), cimag(d)); pmat(a, n * n); printf("\n");
 	    free(a); free(ri);
 	} else if (strcmp(op, "mldivide") == 0) {
 	    int m, n; if (scanf("%d %d", &m, &n) != 2) return 2;
@@ -135,6 +148,22 @@ int main(void)
 		    eh_cat == (int)VNAERR_MATH ? "MATH" : eh_cat == -1 ? "none" : "other");
 	    vnacal_new_free(vnp); vnacal_free(vcp);
 	    free(a); free(b);
+	} else if (strcmp(op, "add_an") == 0) {
+	    int n; if (scanf("%d", &n) != 1) return 2;
+	    cx *a = rmat(n, n), *b = rmat(n, n);
+	    double f[1] = { 1e9 };
+	    cx **ap = malloc(sizeof(cx *) * (n * n + 1)), **bp = malloc(sizeof(cx *) * (n * n + 1));
+	    int *sm = malloc(sizeof(int) * (n * n + 1));
+	    for (int i = 0; i < n * n; ++i) { ap[i] = &a[i]; bp[i] = &b[i]; sm[i] = VNACAL_MATCH; }
+	    eh_calls = 0; eh_cat = -1;
+	    vnacal_t *vcp = vnacal_create(eh, NULL);
+	    vnacal_new_t *vnp = vnacal_new_alloc(vcp, VNACAL_T8, n, n, 1);
+	    vnacal_new_set_frequency_vector(vnp, f);
+	    int rc = vnacal_new_add_mapped_matrix(vnp, ap, n, n, bp, n, n, sm, n, n, NULL);
+	    printf("add_an rc=%d callbacks=%d category=%s\n", rc, eh_calls,
+		    eh_cat == (int)VNAERR_MATH ? "MATH" : eh_cat == -1 ? "none" : "other");
+	    vnacal_new_free(vnp); vnacal_free(vcp);
+	    free(a); free(b); free(ap); free(bp); free(sm);
 	} else {
 	    printf("unknown %s\n", op);
 	    return 2;
